@@ -6,7 +6,10 @@ import os
 
 import toml
 
-FIXDIR = "/repo/tests/main/clients"
+import ariadne_codegen
+
+# the working tree the checks import (normally /repo; a scratch worktree when PYTHONPATH points at one)
+FIXDIR = os.path.join(os.path.dirname(os.path.dirname(os.path.abspath(ariadne_codegen.__file__))), "tests", "main", "clients")
 # fixtures usable for response exploration: no custom scalar parse functions needed by the reference executor
 RESPONSE_FIXTURES = ["example", "inline_fragments", "interface_as_fragment", "multiple_fragments", "fragments_on_abstract_types",
                      "only_used_inputs_and_enums", "operations", "custom_files_names", "extended_models"]
